@@ -187,6 +187,9 @@ func (d *driver) runChunk(spec PhaseSpec, wi int, from, to uint64, deadline time
 		if spec.Sweep {
 			args = append(args, "-sweep")
 		}
+		if ms := os.Getenv("VORESIM_MAXSHRINK"); ms != "" {
+			args = append(args, "-maxshrink", ms)
+		}
 		cmd := exec.Command(bin, args...)
 		var stderr bytes.Buffer
 		cmd.Stderr = &stderr
@@ -522,7 +525,7 @@ func checkMain(args []string) int {
 	nViol, nKnown := 0, 0
 	var lines []string
 	for i, k := range keys {
-		if i >= 12 {
+		if i >= maxReported() {
 			lines = append(lines, fmt.Sprintf("... and %d more distinct violation keys", len(keys)-i))
 			break
 		}
@@ -571,6 +574,13 @@ func checkMain(args []string) int {
 	}
 	fmt.Printf("OK property=%s tier=%s: no violation in %d simulated runs (%.1fs)\n", *prop, env.Tier, d.totalRuns(), wall)
 	return 0
+}
+
+func maxReported() int {
+	if os.Getenv("VORESIM_MAXSHRINK") != "" {
+		return 200
+	}
+	return 12
 }
 
 func (d *driver) totalRuns() uint64 {
